@@ -57,6 +57,7 @@ type HarnessCfg struct {
 	NoMerge         bool     `json:"no_merge"`
 	YieldOnUnlock   bool     `json:"yield_on_unlock"`
 	Tier            int      `json:"tier"`
+	MakeEnumLimit   int      `json:"make_enum_limit"`
 }
 
 func (c *HarnessCfg) defaults() {
@@ -80,6 +81,9 @@ func (c *HarnessCfg) defaults() {
 	}
 	if c.MaxPaths == 0 {
 		c.MaxPaths = 200000
+	}
+	if c.MakeEnumLimit == 0 {
+		c.MakeEnumLimit = 12
 	}
 	if c.SolverTimeoutMS == 0 {
 		c.SolverTimeoutMS = 10000
